@@ -34,6 +34,7 @@ def induced_values(g, meta, r):
 
 def check(ctx, recs):
     budget = 150 if ctx.quick else 2000
+    budget2 = 400 if ctx.quick else 4000
     for r in recs:
         if not r.ok or r.op != "solve":
             continue
@@ -45,6 +46,29 @@ def check(ctx, recs):
             if iv is not None:
                 ctx.violation("'probabilities under minimal reward' is %r at the initial state of a pruned run, expected 1" % pmr[0], r.inp())
         guard = sc.guard_of(g, r.meta)
+        if guard == "exact" and budget2 > 0:
+            budget2 -= 1
+            tl, fr = ox.conditioned(g, r.meta, out[1], out[3], r.prune)
+            live = ox.reachable_from0(tl)
+            if all(g["players"][s] != P1 or not tl[s] or len(out[0][s] or []) == 1 for s in live):
+                tol = 1e-9
+                # 'rewards under minimal reachability': Player 1 follows its final strategy, Player 2 plays inside its reported
+                # reachability strategy and picks the cheapest continuation -> a minimisation over Player 2's restricted choices
+                tl2 = []
+                for s in range(len(tl)):
+                    k = g["players"][s]
+                    if k == P1 and tl[s]:
+                        tl2.append([t for t in tl[s] if t[0] in (out[0][s] or [])][:1] or tl[s][:1])
+                    elif k == P2 and tl[s]:
+                        tl2.append([t for t in tl[s] if t[0] in (out[1][s] or [])] or tl[s])
+                    else:
+                        tl2.append(tl[s])
+                y = ox.reward_values(g, r.meta, tl2, fr)
+                if y is not None:
+                    for s in live:
+                        if abs(rmr[s] - float(y[s])) > tol * (1 + float(y[s])):
+                            ctx.violation("state %d: 'rewards under minimal reachability' %r, expected %s (Player 1 on its final strategy, "
+                                          "Player 2 cheapest inside its reachability strategy)" % (s, rmr[s], y[s]), r.inp(), rew_min_reach=rmr)
         if guard == "any" or budget <= 0:
             continue
         iv = induced_values(g, r.meta, r)
@@ -62,23 +86,6 @@ def check(ctx, recs):
         budget -= 1
         ctx.count("oracle:" + guard)
         tol = 1e-9 if guard == "exact" else 1e-4
-        # 'rewards under minimal reachability': Player 1 follows its final strategy, Player 2 plays inside its reported
-        # reachability strategy and picks the cheapest continuation -> a minimisation over Player 2's restricted choices
-        tl2 = []
-        for s in range(len(tl)):
-            k = g["players"][s]
-            if k == P1 and tl[s]:
-                tl2.append([t for t in tl[s] if t[0] in (out[0][s] or [])][:1] or tl[s][:1])
-            elif k == P2 and tl[s]:
-                tl2.append([t for t in tl[s] if t[0] in (out[1][s] or [])] or tl[s])
-            else:
-                tl2.append(tl[s])
-        y = ox.reward_values(g, r.meta, tl2, fr)
-        if y is not None:
-            for s in live:
-                if abs(rmr[s] - float(y[s])) > tol * (1 + float(y[s])):
-                    ctx.violation("state %d: 'rewards under minimal reachability' %r, expected %s (Player 1 on its final strategy, "
-                                  "Player 2 cheapest inside its reachability strategy)" % (s, rmr[s], y[s]), r.inp(), rew_min_reach=rmr)
         for s in live:
             if abs(pmr[s] - float(x[s])) > tol:
                 ctx.violation("state %d: 'probability under minimal reward' %r, induced chain reaches a final state with %s" % (s, pmr[s], x[s]),
